@@ -509,9 +509,12 @@ func tailStr(s string, n int) string {
 
 // blockedInLibrary: does a goroutine dump contain a goroutine that is waiting (not running) with
 // go-qrllib frames on its stack?
+// Only goroutines that the runtime itself reports as waiting for at least two minutes count: on a slow or
+// overloaded machine a live goroutine is often caught in a momentary wait (runtime semaphores of the allocator
+// and the collector show up as "semacquire" under library frames) — that is not a deadlock.
 func blockedInLibrary(dump string) bool { return libraryFrames(dump) != "" }
 
-func libraryFrames(dump string) string { return libraryFramesMin(dump, 0) }
+func libraryFrames(dump string) string { return libraryFramesMin(dump, 2) }
 
 var c15Minutes = regexp.MustCompile(`, (\d+) minutes`)
 
@@ -589,6 +592,9 @@ func c15Run(j *rt.Job, seed uint64, r *rt.Rec) {
 	perG := 12
 	if sc == "fresh-keys" {
 		perG = 3
+		if G > 32 {
+			G = 32
+		}
 	}
 	if sc == "xmss-private-keys" {
 		perG = 3 // each call is a whole key life (keygen, signatures, a jump, verifications)
@@ -667,12 +673,14 @@ wait:
 	}
 	tick.Stop()
 	if early != "" {
+		os.Stderr.WriteString("goroutines blocked inside the library:\n" + early + "\n")
 		r.Violate("C15/calls-never-return", fmt.Sprintf("scenario %s with %d goroutines: no call completed for %s and goroutines have been blocked inside the library for minutes (deadlock or lost wake-up)", sc, G, c15Stall), jobCase(j), "all calls return", tailStr(early, 1500))
 		return
 	}
 	if expired {
 		buf := make([]byte, 1<<22)
 		dump := string(buf[:runtime.Stack(buf, true)])
+		os.Stderr.WriteString("patience limit reached; goroutine dump:\n" + dump + "\n")
 		if blockedInLibrary(dump) {
 			r.Violate("C15/calls-never-return", fmt.Sprintf("scenario %s with %d goroutines: calls do not return; goroutines are blocked inside the library (deadlock or lost wake-up)", sc, G), jobCase(j), "all calls return", tailStr(libraryFrames(dump), 1500))
 		} else {
